@@ -230,16 +230,23 @@ def real_hostile(wk, kind):
             time.sleep(1.0)
         elif kind.startswith("hangup"):
             import struct
-            for path in ("/stream?n=4&d=0.25", "/gen?prod=iter&sizes=1000,1000,1000&d=0.25", "/stream?n=4&d=0.25"):
+            for k, path in enumerate(("/stream?n=5&d=0.25", "/gen?prod=iter&sizes=1000,1000,1000,1000&d=0.25", "/stream?n=5&d=0.25",
+                                      "/gen?prod=write&sizes=1000,1000,1000,1000")):
                 c = s.connect(timeout=5)
                 c.sendall(("GET %s HTTP/1.1\r\nHost: h\r\n\r\n" % path).encode())
                 try:
-                    c.recv(100)                         # the head (and maybe a first piece) has arrived
+                    c.recv(65536)                       # the head (and maybe a first piece) has arrived
+                    c.settimeout(0.1)
+                    c.recv(65536)                       # (nothing left unread: the close below sends FIN, not RST)
                 except OSError:
                     pass
-                c.setsockopt(socket.SOL_SOCKET, socket.SO_LINGER, struct.pack("ii", 1, 0))
-                c.close()                               # RST: the server's next writes fail
-                time.sleep(0.9)
+                if k % 2:
+                    # a reset: the server's next write fails with ECONNRESET
+                    c.setsockopt(socket.SOL_SOCKET, socket.SO_LINGER, struct.pack("ii", 1, 0))
+                # (else an ordinary close: the server's next write is accepted and answered with a reset, the one after
+                # that fails with EPIPE -- and raises SIGPIPE in a process that does not ignore it)
+                c.close()
+                time.sleep(1.4)
             time.sleep(0.5)
         else:
             for _ in range(10):
